@@ -135,8 +135,8 @@ func c06Judge(ctx *rt.Ctx, image []byte, exp *c06Expect, preload bool) (viol str
 		rt.Harnessf("image: %v", err)
 	}
 	defer os.Remove(p)
-	flk.PanicOnWait = true
-	defer func() { flk.PanicOnWait = false }()
+	flk.Sequential(true)
+	defer flk.Sequential(false)
 	defer func() {
 		if r := recover(); r != nil {
 			viol, class = fmt.Sprintf("OpenIndex panicked on the partial file: %v", r), "panic"
@@ -144,6 +144,9 @@ func c06Judge(ctx *rt.Ctx, image []byte, exp *c06Expect, preload bool) (viol str
 	}()
 	idx, err := ix.Open(p, preload, nil)
 	if err != nil {
+		if !flk.Free(p) {
+			return "the partial file is rejected, but it stays locked: opening it again would hang", "rejected-but-locked"
+		}
 		return "", "rejected"
 	}
 	defer idx.Close()
